@@ -228,6 +228,17 @@ def c07_2(ctx, b1, b2):
             nmr = U.named_root(b, t["args"][1])
             ctx.ob(R, "%s:node-checked-is-generator" % nm, "node_from_bytes_backrefs" in a or nmr == "program",
                    "check_generator_node inspects the decoded generator", found=[a[:160], nmr])
+    # both paths decode the caller's generator with the same deserialiser (back-references allowed); the strict
+    # node_from_bytes is applied to constants only (the ROM)
+    for nm, b in (("run_block_generator", b1), ("run_block_generator2", b2)):
+        decs = [(U.flat(n).split("::")[-1], str(apnf.N(strip_all(b.operand_term(t["args"][1]))))) for bi, n, t in b.calls() if "node_from_bytes" in U.flat(n).split("::")[-1]]
+        prog = [d for d in decs if "program" in d[1]]
+        other = [d for d in decs if "program" not in d[1]]
+        ok = bool(prog) and all(d[0] == "node_from_bytes_backrefs" and d[1] == "program" for d in prog) and \
+            all(d[1].startswith("('as &[u8]', b'") or d[1].startswith("b'") for d in other)
+        ctx.ob(R, "%s:generator-decoder" % nm, ok,
+               "%s decodes the generator with node_from_bytes_backrefs (as the other path does); other decodes take constants" % nm,
+               found=[(d[0], d[1][:40]) for d in decs])
     sb = [f for p, f in ctx.fb.fns.items() if p.startswith(RBG + "setup_generator_args") and f.e["kind"] == "Fn"]
     if len(sb) == 1:
         b = Body(sb[0], ctx.fb)
